@@ -241,6 +241,19 @@ def length_error_types():
     return (InvalidDataLength,)
 
 
+def _items_of(v):
+    """The items a vector holds, through its public sequence interface (the private list is used only as a fast path
+    when it exists, so that a refactoring of the storage does not break the exploration)."""
+    it = getattr(v, '_items', None)
+    return list(it) if isinstance(it, list) else list(v)
+
+
+def _hidden_size(v):
+    """The incremental size counter, if the implementation keeps one (part of the explored state: two states with the
+    same items but different counters have different futures)."""
+    return getattr(v, '_items_size', None)
+
+
 class Explorer(object):
     def __init__(self, cls, acc, light=False):
         self.cls = cls
@@ -265,22 +278,24 @@ class Explorer(object):
                 fn(v, self.items)
             except Exception:  # noqa
                 pass
-        return v, list(v._items)
+        return v, _items_of(v)
 
     def snapshot(self, v):
-        items = v._items
+        items = _items_of(v)
         if len(items) > 256:
             # large vectors only ever hold the alphabet objects themselves: identity is a sound item key
-            return (tuple(id(x) for x in items), v._items_size)
-        return (tuple(repr(canon.dump(x, eq=True)) for x in items), v._items_size)
+            return (tuple(id(x) for x in items), _hidden_size(v))
+        return (tuple(repr(canon.dump(x, eq=True)) for x in items), _hidden_size(v))
 
     @staticmethod
     def clone(v):
         """Independent copy of a vector state: its whole state is (item list, size counter); items are
         immutable alphabet objects.  (selftest compares clone-based and replay-based exploration.)"""
-        c = copy.copy(v)
-        c._items = list(v._items)
-        return c
+        if isinstance(getattr(v, '_items', None), list):
+            c = copy.copy(v)
+            c._items = list(v._items)
+            return c
+        return copy.deepcopy(v)
 
     @staticmethod
     def same_items(a, b):
@@ -350,7 +365,7 @@ class Explorer(object):
             v, L = self.build(init, hist)
         else:
             v = self.clone(parent)
-            L = list(v._items)
+            L = _items_of(v)
         name, fn = self.events[ei]
         before = self.snapshot(v)
         L2 = list(L)
@@ -374,7 +389,7 @@ class Explorer(object):
                 self.viol('accepts_what_list_refuses', name, 'vector accepted an edit a plain list refuses', init,
                           hist + [ei], name)
                 return hist + [ei], v
-            cur = list(v._items)
+            cur = _items_of(v)
             if not self.same_items(cur, L2):
                 self.viol('result_differs_from_list', name, 'after %s the vector has %d items, a list has %d%s'
                           % (name, len(cur), len(L2), '' if len(cur) != len(L2) else ' (different items)'),
@@ -422,7 +437,7 @@ class Explorer(object):
                     if k in seen:
                         continue
                     seen.add(k)
-                    self.check_state(v, list(v._items), init, h2)
+                    self.check_state(v, _items_of(v), init, h2)
                     nxt.append((h2, v))
             frontier = nxt
         for k in seen:
@@ -452,7 +467,7 @@ def check_constructor_aliasing(ex, init):
                 fn(v, ex.items)
             except Exception:  # noqa - refused edit
                 pass
-            src_items = src if src_kind == 'list' else list(src._items)
+            src_items = src if src_kind == 'list' else _items_of(src)
             if not ex.same_items(src_items, model):
                 ex.viol('source_changed', evname, 'editing a vector built from a %s changed that %s'
                         % (src_kind, src_kind), init, [], evname)
@@ -471,7 +486,7 @@ def check_constructor_aliasing(ex, init):
                     fn(src2, ex.items)
             except Exception:  # noqa
                 continue
-            if not ex.same_items(list(v2._items), model):
+            if not ex.same_items(_items_of(v2), model):
                 ex.viol('copy_follows' if src_kind == 'vector' else 'source_follows', evname,
                         'a vector built from a %s changed when that %s was edited afterwards' % (src_kind, src_kind),
                         init, [], evname)
